@@ -100,3 +100,33 @@ Example C01_quo_example_run :
   rdec_value (ctx_quo go_est (mkCtx 3 5 (-5) c0 RHalfDown) (mkDec Finite false (-14) 15000001) (mkDec Finite false 0 1))
   = Some (mkDec Finite false (-7) 2).
 Proof. vm_compute. reflexivity. Qed.
+
+(* ---------- what the specification means, in the standard vocabulary of floating-point rounding ----------
+   Spec-Z (rndZ, spec_round_nz: integers only, executable, the specification every theorem above is stated
+   against) computes Flocq's roundings: the integer rounding of a signed real in each of the nine mode
+   names (Spec/SpecR.v: rnd_of - Ztrunc, Zaway, Zceil, Zfloor, ZnearestE, nearest with ties away from /
+   toward zero, and round-05-up), the rounding of the exact value to the context's decimal format
+   round radix10 (FLT_exp Etiny Precision), and an overflow exactly when that rounded magnitude reaches
+   10^(Emax+1).  These theorems use the real numbers of Coq's standard library (its axioms are listed). *)
+From Coq Require Import Reals.
+From Flocq Require Import Core.
+From Apd Require Import Spec.SpecR Proofs.SpecRProofs.
+
+Theorem C01_spec_is_flocq_integer_rounding : forall m (ng : bool) n d, 0 <= n -> 0 < d ->
+  let s := if ng then -1 else 1 in
+  rnd_of m (IZR s * (IZR n / IZR d)) = s * rndZ m ng n d.
+Proof. exact rndZ_is_flocq_rounding. Qed.
+Print Assumptions C01_spec_is_flocq_integer_rounding.
+
+Theorem C01_spec_is_flocq_format_rounding : forall p emin_ emax_ mode (E : exact), 1 <= p -> 0 < xnum E -> 0 < xden E ->
+  let S := spec_round_nz p emin_ emax_ mode E in
+  s_overflow S = false ->
+  sres_R (s_res S) = Some (round_ctx p emin_ mode (E2R E)).
+Proof. exact spec_round_is_flocq. Qed.
+Print Assumptions C01_spec_is_flocq_format_rounding.
+
+Theorem C01_spec_overflow_is_flocq : forall p emin_ emax_ mode (E : exact), 1 <= p -> 0 < xnum E -> 0 < xden E ->
+  let S := spec_round_nz p emin_ emax_ mode E in
+  (s_overflow S = true <-> (bpow radix10 (emax_ + 1) <= Rabs (round_ctx p emin_ mode (E2R E)))%R).
+Proof. exact spec_overflow_is_flocq. Qed.
+Print Assumptions C01_spec_overflow_is_flocq.
